@@ -13,6 +13,7 @@ import (
 	"io"
 	"reflect"
 	"sync"
+	"time"
 
 	"github.com/hashicorp/eventlogger"
 	wrapping "github.com/hashicorp/go-kms-wrapping/v2"
@@ -22,6 +23,12 @@ import (
 	"google.golang.org/protobuf/types/known/structpb"
 	"google.golang.org/protobuf/types/known/wrapperspb"
 )
+
+// shallowCopiedTypes are the pointer types which the Filter's deep copy of an
+// Event copies as pointers, instead of descending into what they point to.
+var shallowCopiedTypes = map[reflect.Type]struct{}{
+	reflect.TypeOf((*time.Location)(nil)): {},
+}
 
 // Filter is an eventlogger Filter Node which will filter string and
 // []byte fields in an event.  Fields with tags that designate
@@ -205,7 +212,10 @@ func (ef *Filter) Process(ctx context.Context, e *eventlogger.Event) (*eventlogg
 	// since the node will be modifying the event data (aka redact/encrypt), we
 	// need our own copy, otherwise we could be changing the event across other
 	// pipelines and nodes and creating a host of problems and race conditions.
-	dup, err := copystructure.Copy(e)
+	// The copy shares (and must not walk into) the *time.Location behind
+	// e.CreatedAt: it belongs to the time package, which initialises time.Local
+	// lazily, possibly while another pipeline formats the event's time.
+	dup, err := copystructure.Config{ShallowCopiers: shallowCopiedTypes}.Copy(e)
 	if err != nil {
 		return nil, err
 	}
